@@ -40,6 +40,8 @@ def build(case):
     from edgegraph.structure import singleton
     metas = [singleton.semi_singleton_metaclass(CUSTOM[m["custom"]]) if m["custom"] else singleton.semi_singleton_metaclass()
              for m in case["metas"]]
+    # a metaclass DERIVED from the generated one (class Meta(Base): pass) - invisible to the model: it inherits the table
+    metas = [type(mc)("Meta", (mc,), {}) if m.get("derived") else mc for mc, m in zip(metas, case["metas"])]
     classes = []
     counter = {"n": 0}
     for ci, c in enumerate(case["classes"]):
@@ -82,7 +84,7 @@ class SemiHistory(Leg):
     checkfn = "sscheck"
     case_type = "list sop * list sobs"
     rule = ("lock-step histories (4-22 calls) of construction (1 in 7 with an __init__ that raises) / add_mapping / drop / check / get_all / clear over 2-4 classes: own "
-            "metaclass each, a metaclass object shared by two classes, subclasses of a semi-singleton class, custom hash functions; "
+            "metaclass each (3 in 10 a metaclass DERIVED from the generated one), a metaclass object shared by two classes, subclasses of a semi-singleton class, custom hash functions; "
             "argument pool with distinct values of equal hash (-1 / -2, 0 / 2**61-1), keyword order permutations, nested tuples, keyword "
             "values equal across types (1 / True / 1.0: distinct keys by their JSON text), a nested dict value in two insertion orders; "
             "2 in 5 root classes with falsy instances, 2 in 5 whose __init__ sorts a list argument in place (the list given in both orders: different keys); "
@@ -94,7 +96,7 @@ class SemiHistory(Leg):
     def generate(self, rng, n):
         for _ in range(n):
             nm = rng.randint(1, 2)
-            metas = [{"custom": rng.choice([None, None, None, "first", "nargs"])} for _ in range(nm)]
+            metas = [{"custom": rng.choice([None, None, None, "first", "nargs"]), "derived": rng.random() < 0.3} for _ in range(nm)]
             classes = [{"meta": 0, "parent": None}]
             for i in range(1, rng.randint(2, 4)):
                 if rng.random() < 0.35:
